@@ -747,3 +747,79 @@ Lemma empty_target_staged :
     file_at (["R"; "rsb"; "s1"; "p0"; "t0"] ++ [if client_side_b a then "a.dat" else "sh.dat"]) fs'
       = Some (Plain (if client_side_b a then 1 else 3)).
 Proof. intros a [<-|[<-|[<-|[<-|[]]]]]; vm_compute; split; reflexivity. Qed.
+
+(* ------------------------------------ overwrites: the last writer of a path wins *)
+
+Section LastWriter.
+  Variable step : sd -> fsys -> res.
+  Hypothesis step_frame : forall d fs fs' e, step d fs = Ok fs' e -> keeps d = true ->
+    exists c, file_at e fs' = Some c /\ forall q, q <> e -> file_at q fs' = file_at q fs.
+
+  (* no hypothesis on the targets: they may collide *)
+  Lemma steps_last_writer l : forall fs, forallb keeps l = true -> h_ok (steps step l fs []) = true ->
+    List.length (h_log (steps step l fs [])) = List.length l /\
+    forall q, file_at q (h_fs (steps step l fs [])) =
+              match last_write q (h_log (steps step l fs [])) with
+              | Some c => Some c
+              | None => file_at q fs
+              end.
+  Proof.
+    induction l as [|d l IH]; intros fs Hk Hok; [split; reflexivity|].
+    cbn [forallb] in Hk. apply andb_true_iff in Hk as [Hk1 Hk2].
+    cbn [steps] in *. destruct (step d fs) as [fs1 e|fs1] eqn:Es; [|discriminate].
+    assert (Ht : action_eqb (s_act d) Tarball = false)
+      by (unfold keeps in Hk1; apply andb_true_iff in Hk1 as [_ H]; apply negb_true_iff in H; exact H).
+    rewrite Ht in *. rewrite steps_acc in *. cbn [h_ok h_fs h_log app] in *.
+    destruct (step_frame _ _ _ _ Es Hk1) as [c [Hc Hf]].
+    destruct (IH fs1 Hk2 Hok) as [Hlen Hall].
+    split; [cbn [List.length]; rewrite Hlen; reflexivity|].
+    intro q. rewrite (Hall q). cbn [last_write].
+    destruct (last_write q (h_log (steps step l fs1 []))); [reflexivity|].
+    destruct (path_eqb q e) eqn:Eq.
+    - apply path_eqb_eq in Eq. subst q. rewrite Hc. reflexivity.
+    - apply Hf. intro Heq. subst q. rewrite path_eqb_refl in Eq. discriminate.
+  Qed.
+End LastWriter.
+
+Lemma agent_input_last_writer t l fs :
+  forallb keeps l = true -> h_ok (agent_si_steps t l fs []) = true ->
+  List.length (h_log (agent_si_steps t l fs [])) = List.length l /\
+  forall q, file_at q (h_fs (agent_si_steps t l fs [])) =
+            match last_write q (h_log (agent_si_steps t l fs [])) with Some c => Some c | None => file_at q fs end.
+Proof. exact (steps_last_writer (agent_in_step t) (agent_in_frame t) l fs). Qed.
+
+Lemma agent_output_last_writer t l fs :
+  forallb keeps l = true -> h_ok (agent_so_steps t l fs []) = true ->
+  List.length (h_log (agent_so_steps t l fs [])) = List.length l /\
+  forall q, file_at q (h_fs (agent_so_steps t l fs [])) =
+            match last_write q (h_log (agent_so_steps t l fs [])) with Some c => Some c | None => file_at q fs end.
+Proof. exact (steps_last_writer (agent_out_step t) (agent_out_frame t) l fs). Qed.
+
+Lemma copy_all_last_writer tar l : forall fs, no_tar l = true -> h_ok (copy_all tar l fs []) = true ->
+  List.length (h_log (copy_all tar l fs [])) = List.length l /\
+  forall q, file_at q (h_fs (copy_all tar l fs [])) =
+            match last_write q (h_log (copy_all tar l fs [])) with Some c => Some c | None => file_at q fs end.
+Proof.
+  induction l as [|[a s g|g] l IH]; intros fs Hk Hok; [split; reflexivity| |discriminate].
+  cbn [no_tar] in Hk. apply andb_true_iff in Hk as [Hk1 Hk2]. apply negb_true_iff in Hk1.
+  cbn [copy_all] in *. destruct (handle_sd a s g fs) as [fs1 e|fs1] eqn:Es; [|discriminate].
+  rewrite copy_all_acc in *. cbn [h_ok h_fs h_log app] in *.
+  destruct (handle_sd_spec _ _ _ _ _ _ Es) as [c [_ [Hc [_ Hf]]]].
+  destruct (IH fs1 Hk2 Hok) as [Hlen Hall].
+  split; [cbn [List.length]; rewrite Hlen; reflexivity|].
+  intro q. rewrite (Hall q). cbn [last_write].
+  destruct (last_write q (h_log (copy_all tar l fs1 []))); [reflexivity|].
+  destruct (path_eqb q e) eqn:Eq.
+  - apply path_eqb_eq in Eq. subst q. rewrite Hc. reflexivity.
+  - apply Hf; [|rewrite Hk1; discriminate]. intro Heq. subst q. rewrite path_eqb_refl in Eq. discriminate.
+Qed.
+
+(* each log entry records the content the resolved source had when its
+   directive ran: one step of the log *)
+Lemma steps_log_head step d l fs fs1 e :
+  step d fs = Ok fs1 e -> action_eqb (s_act d) Tarball = false ->
+  h_log (steps step (d :: l) fs []) =
+  (e, match file_at e fs1 with Some c => c | None => Plain 0 end) :: h_log (steps step l fs1 []).
+Proof.
+  intros Es Ht. cbn [steps]. rewrite Es, Ht. rewrite steps_acc. reflexivity.
+Qed.
